@@ -256,6 +256,7 @@ fn main() {
         1 => run::<1>(&job),
         2 => run::<2>(&job),
         3 => run::<3>(&job),
+        4 => run::<4>(&job),
         16 => run::<16>(&job),
         n => panic!("no instantiation for N={n}"),
     }
